@@ -155,6 +155,8 @@ def predicate(ctx, optic, case, par, w):
                              case, {'eps': es[-1], 'relative_discrepancy': errs[-1], 'errors': errs}, finding_key=fk)
                     return
                 slope = fit_slope(es, errs, 1e-11)
+                if max(errs) < 1e-7:
+                    slope = None      # already at numerical precision at the largest scale: no rate to measure
                 if slope is not None and slope < 1.8 and has_parabola and min(errs) < 1e-6:
                     # F23: for k = -1 the quadratic (-b +- sqrt d)/(2a) has a = L^2+M^2 -> 0 with the ray slope;
                     # rounding noise ~ 1e-16/eps^3 takes over before the O(eps^2) regime can be followed
